@@ -64,6 +64,11 @@ def _mk_ops(ctx, rng, a_t, b_t, which):
         ops.append(dict(k="convert", cq=rng.choice([ca, a_t]), u=ua, v=ub, x=x))
     if "create" in which:
         ops.append(dict(k="create", c=ca, u=ub))
+        if rng.random() < 0.5:
+            # a derived quantity requested with a unit of another quantity type under one of its categories
+            # (single entry with an exponent other than 1, or two entries)
+            ops.append(dict(k="createderived", c=ca, u=ub, e=rng.choice([2, -1, 3, -2]),
+                            extra=rng.random() < 0.4, c2=cb, u2=ub, how=rng.choice(["CreateDerived", "ObtainQuantity"])))
     if "arith" in which:
         ops.append(dict(k="arith", f=rng.choice(["add", "sub"]), c1=ca, u1=ua, c2=cb, u2=ub, x=x, y=y))
         if a_t != b_t and rng.random() < 0.5 and len(ctx.units[a_t]) > 1 and len(ctx.cats.get(a_t, [])) > 1:
@@ -74,6 +79,12 @@ def _mk_ops(ctx, rng, a_t, b_t, which):
             u1b = rng.choice([u for u in ctx.units[a_t] if u != ua])
             ops.append(dict(k="arithd", f=rng.choice(["add", "sub"]), c1=ca, u1=ua, c1b=c1b, u1b=u1b,
                             c2=cb, u2=ub, x=x, y=y))
+        if a_t != b_t and rng.random() < 0.4 and len(ctx.units[a_t]) > 1:
+            # numpy-valued Arrays of derived quantities: u1^2 (type a) against u1'^2 * u2^-1 (types a and b): the
+            # units of type a get matched (scaling the values) BEFORE the dimension check fails
+            u1b = rng.choice([u for u in ctx.units[a_t] if u != ua])
+            ops.append(dict(k="arithnd", f=rng.choice(["add", "sub"]), c1=ca, u1=ua, u1b=u1b, c2=cb, u2=ub,
+                            x=x, y=y, swap=rng.random() < 0.5))
     if "cmp" in which:
         ops.append(dict(k="cmp", f=rng.choice(["lt", "le", "gt", "ge"]), c1=ca, u1=ua, c2=cb, u2=ub, x=x, y=y))
     if "check" in which:
@@ -109,6 +120,11 @@ def _expand(op):
     object-level routes equal the database conversion is C02's theorem scalar_getValue_eq_convert)"""
     if op["k"] == "getvalue":
         return [dict(k="create", c=op["c"], u=op["u"]), dict(k="convert", cq=op["c"], u=op["u"], v=op["v"], x=op["x"])]
+    if op["k"] == "createderived":
+        # model stand-in: creating a value of category c with the foreign unit u is rejected
+        return [dict(k="create", c=op["c"], u=op["u"])]
+    if op["k"] == "arithnd":
+        return [dict(k="arith", f=op["f"], c1=op["c1"], u1=op["u1"], c2=op["c2"], u2=op["u2"], x=op["x"], y=op["y"])]
     if op["k"] == "arithd":
         # the model's simple operands stand in for the derived left operand: dimensions differ, so the sum is
         # rejected (derived operands themselves are engine Alg's, C03)
@@ -248,6 +264,43 @@ def _run_op(db, op):
             else:
                 r = float(FractionScalar(op["c"], FractionValue(op["x"]), op["u"]).GetValue(op["v"]))
             return dict(ok=dict(x=float(r).hex()))
+        if k == "createderived":
+            from collections import OrderedDict
+            from barril.units import ObtainQuantity
+            from barril.units._quantity import Quantity
+
+            items = [(op["c"], [op["u"], op["e"]])]
+            if op["extra"] and op["c2"] != op["c"]:
+                items.append((op["c2"], [op["u2"], 1]))
+            m = OrderedDict(items)
+            q = Quantity.CreateDerived(m) if op["how"] == "CreateDerived" else ObtainQuantity(m)
+            if op["how"] == "ObtainQuantity":
+                # ObtainQuantity(dict) does not validate by design; building a value and using it must then fail
+                s0 = Scalar.CreateWithQuantity(q, 1.0)
+                return dict(ok=dict(cat=s0.GetCategory(), unit=s0.GetUnit()), unvalidated=True)
+            return dict(ok=dict(cat=q.GetCategory(), unit=q.GetUnit()))
+        if k == "arithnd":
+            import numpy
+            from barril.units import Array
+
+            def sq(unit, cat, v):
+                a0 = Array(numpy.array([v, 2 * v + 1.0]), unit, cat)
+                return a0 * a0
+
+            left = sq(op["u1"], op["c1"], op["x"])
+            right = sq(op["u1b"], op["c1"], op["y"]) / Array(numpy.array([2.0, 4.0]), op["u2"], op["c2"])
+            if op["swap"]:
+                left, right = right, left
+            keep = [(o, o.GetValues().copy(), o.GetUnit()) for o in (left, right)]
+            try:
+                r = left + right if op["f"] == "add" else left - right
+                out = dict(ok=dict(cat=r.GetCategory(), unit=r.GetUnit(), x=float(r.GetValues()[0]).hex()))
+            except Exception as e:
+                out = dict(err=err_kind(e))
+            for o, vals, unit in keep:
+                if o.GetUnit() != unit or not numpy.array_equal(o.GetValues(), vals):
+                    return dict(err="other", detail="an operand changed: %r -> %r [%s]" % (list(vals), list(o.GetValues()), unit))
+            return out
         if k == "arithd":
             from collections import OrderedDict
             from barril.units._quantity import Quantity
@@ -323,6 +376,8 @@ def _offset_mag(db, op):
 
 
 def _agree_op(op, io, mo, extra_mag=0.0):
+    if op["k"] == "createderived" and io.get("unvalidated"):
+        return None  # ObtainQuantity(dict) stores what it is given (C07 models it); only CreateDerived validates
     if ("err" in io) != ("err" in mo):
         return "one side fails: impl=%s model=%s" % (io, mo)
     if "err" in io:
@@ -421,6 +476,17 @@ def _must_fail(db, op):
         if None in (t, tu, tv) or t == "Unknown" or tu != t:
             return None
         return "units" if tv != t else None
+    if k == "createderived":
+        t = cat_type(op["c"])
+        tu = _qt(db, None, op["u"])
+        if t is None or tu is None or t == "Unknown":
+            return None
+        return "units" if tu != t else None
+    if k == "arithnd":
+        t1, t2 = cat_type(op["c1"]), cat_type(op["c2"])
+        if None in (t1, t2) or "Unknown" in (t1, t2) or t1 == t2:
+            return None
+        return "units"
     if k == "arithd":
         t1, t2 = cat_type(op["c1"]), cat_type(op["c2"])
         if None in (t1, t2) or "Unknown" in (t1, t2) or t1 == t2:
@@ -479,6 +545,26 @@ def oracle(c, ctx):
                 return dict(clause="a later operation behaves differently after an earlier failure",
                             step=i, op=ops[i], with_failures=a, without=b, failed_steps=sorted(failed)[:10])
     return None
+
+
+KNOWN_OBTAIN_DICT = "ObtainQuantity with a composing dict does not validate units"
+
+
+def matches_known(entry, case, failure):
+    """the one recorded C05 finding: ObtainQuantity(dict) (unlike Quantity.CreateDerived) accepts a unit of another
+    quantity type under a category; matched only for exactly that call"""
+    if entry.get("matcher", {}).get("call_site") != KNOWN_OBTAIN_DICT:
+        return False
+    op = (failure or {}).get("op") or {}
+    return op.get("k") == "createderived" and op.get("how") == "ObtainQuantity" \
+        and (failure or {}).get("clause") == "incompatible operation returned a result"
+
+
+def replay_finding(entry, ctx):
+    if entry.get("matcher", {}).get("call_site") != KNOWN_OBTAIN_DICT:
+        return None
+    op = dict(k="createderived", c="length", u="s", e=2, extra=False, c2="time", u2="s", how="ObtainQuantity")
+    return oracle(_history([op]), ctx)
 
 
 def search(ctx):
